@@ -69,22 +69,22 @@ theorem lookupSelect_ops (tbl : List Jac) (x : Nat) (dest d gen : Jac) :
     as_aux_lemma => rfl
 
 theorem lookupInit_facts :
-    G.lookupInit.inputs = ["v.points", "p"] ∧ G.lookupInit.outputs = ["v.points"]
+    G.lookupInit.inputs = ["r.f0", "p0"] ∧ G.lookupInit.outputs = ["r.f0"]
     ∧ G.lookupInit.guards = [] ∧ G.lookupInit.paramWrites = []
-    ∧ G.lookupInit.hazards = ["read of p after write of v.points"] := by
+    ∧ G.lookupInit.hazards = ["read of p0 after write of r.f0"] := by
   ptops_decide "C15TblOps.lookupInit_facts"
 
 theorem lookupSelect_facts :
-    G.lookupSelect.inputs = ["v.points", "dest", "x"] ∧ G.lookupSelect.outputs = ["dest"]
-    ∧ G.lookupSelect.guards = [("panic-if", ["x >= 16"])] ∧ G.lookupSelect.paramWrites = ["dest"]
-    ∧ G.lookupSelect.hazards = ["read of v.points after write of dest"] := by
+    G.lookupSelect.inputs = ["r.f0", "p0", "p1"] ∧ G.lookupSelect.outputs = ["p0"]
+    ∧ G.lookupSelect.guards = [("panic-if", ["(p1 >= 16)"])] ∧ G.lookupSelect.paramWrites = ["p0"]
+    ∧ G.lookupSelect.hazards = ["read of r.f0 after write of p0"] := by
   ptops_decide "C15TblOps.lookupSelect_facts"
 
 theorem initBaseTable_facts :
-    G.initBaseTable.inputs = ["baseTable[].points"] ∧ G.initBaseTable.outputs = ["baseTable[].points"]
+    G.initBaseTable.inputs = ["baseTable[].f0"] ∧ G.initBaseTable.outputs = ["baseTable[].f0"]
     ∧ G.initBaseTable.guards = [] ∧ G.initBaseTable.paramWrites = [] ∧ G.initBaseTable.hazards = []
     ∧ G.initBaseTable.facts.take 2 = [("once", "initOnce"),
-        ("constant .newGenerator", "base.FromAffine(gen.NewGenerator())")] := by
+        ("constant .newGenerator", "u0.FromAffine(u1.NewGenerator())")] := by
   ptops_decide "C15TblOps.initBaseTable_facts"
 
 theorem covered :
